@@ -44,6 +44,10 @@ def run(chk: Check, proj: Project) -> None:
     s8_key_fields(chk, proj)
     s11_kind_flow(chk, proj, w)
     s12_served_iff_announced(chk, proj, w)
+    from . import generic
+
+    chk.rule("S14", "twin-kind argument agreement on the way from the render to the marker and the cachers: an argument that names one script kind is bound to the parameter of the same kind (js_input_hash -> js_input_hash, never css_input_hash) (generic template, shared with C04-S20)")
+    generic.kind_named_args(chk, "S14", proj, w.cg, ["component", "dependencies"], floor=8)
     s13_status_survives_middleware(chk, proj, w)
 
 
